@@ -1,7 +1,725 @@
-import RbdlProofs.Lemmas.Rot
-/- C09 — property theorems (being filled in) -/
+import RbdlProofs.Lemmas.L09Ex
+import RbdlProofs.Lemmas.L09Whole
+/-
+  C09 — constraint Jacobian, gamma and error terms are consistent derivatives.
+
+  Sections: 1 bookkeeping of the additions · 2 contact rows · 3 loop rows · 4 `G q̇ = φ̇` ·
+  5 `γ = −φ̈|_{q̈=0}`, `G q̈ − γ` · 6 Baumgarte · 6' whole sets, `CalcConstrainedSystemVariables` ·
+  7 counterexamples for the defect classes.
+
+  Objects (helper notions in `RbdlProofs/Lemmas/L09*.lean`, namespace `Rbdl.L09`):
+  * `L09.Op`, `step`, `run ops` — a sequence of `AddContactConstraint` / `AddLoopConstraint` calls and
+    the constraint set it builds from the empty set; `rowsOf cs` — total number of axes; `Shape c` —
+    the per-constraint bookkeeping facts; `Contig C` — constraint `i` starts at the number of rows
+    before it; `NoFixed c` — both body ids are below `fixedDisc`;
+  * `hasRow c r` — `row ≤ r < row + #T`; `axisAt c r` — the axis `T[r − row]`;
+    `rowDot G nv r x = Σ_{j<nv} G r j · x j`;
+  * `frameOf w id Xf`, `vel6 w id p`, `acc6 w id p` — world placement of a constraint frame, 6-D
+    point velocity `(ω, v_P)` and acceleration `(ω̇, a_P)` of a body id below `fixedDisc`, read off the
+    workspace without kinematics update (they are what `loopFrame`, `CalcPointVelocity6D`,
+    `CalcPointAcceleration6D` return: `loopFrame_eq`, `pointVelocity6D_eq`, `pointAcceleration6D_eq`);
+  * `BodyOK m id` — the base body or a movable body;
+  * `contactPhi P x n`, `loopPhi A B t` — the constraint functions of `Rbdl/Spec/Constr.lean` over
+    second-order jets (`constrPhi_contact`, `constrPhi_loop`: the two branches of `Spec.constrPhi`);
+    `axial M` — the vector of the skew part of `M` (`loopError = (axial(A.Eᵀ B.E), A.Eᵀ(B.r − A.r))`);
+  * `Setup m w st` — the hypotheses of C05 / C06 on model, state, construction-time workspace;
+  * `velGap`, `accGap` — the exact differences `G q̇ − φ̇`, `(G q̈ − γ) − φ̈` of a loop row;
+  * `csvWS` — the workspace in which `CalcConstrainedSystemVariables` evaluates the constraints.
+
+  Findings.
+  * (1) `size`, the flag lists and the zero-position-error flags of contacts are right after any
+    sequence of additions, and (with the repaired grouping rule of `AddContactConstraint` /
+    `AddLoopConstraint`: merge into the last constraint of the type only if `row + #T = size`) the
+    rows of the constraints tile `[0, size)` (`rows_contiguous`).  Under the old rule (merge
+    whenever body / point / user id agree) contact, loop, same contact again gave two constraints
+    with rows {0,1} and {1} and `size = 3` (`interleaved_rows_old_rule`).
+  * (4, 5) Contacts: unconditional (base body, movable bodies; `contact_row_velocity_fixedBody` for
+    fixed bodies at the level of C05).  Loops: exact formulas `loop_velocity_gap`, `loop_gamma_gap`.
+    The discrepancy has three independent parts:
+      D5a  rotational axis `w`, predecessor frame origin `r_A` with `r_A × w ≠ 0`
+           (`−E_A (r_A × w)` is added to the linear part of the axis), velocity and acceleration
+           level; at acceleration level in addition `(ṗ_A × E_A w) · Δṗ` (the velocity-product term
+           treats `(ω, ṗ_A)` as a spatial vector: wrong for a moving predecessor frame origin);
+      D5b  translational axis `v` on a rotating predecessor with separated frame origins
+           (`−(E_A v) · (ω_A × Δr)` is missing);
+      sine scaling  the reported rotational error is `w · axial(E_Aᵀ E_B)`, whose derivative is
+           `w · axial(E_Aᵀ S(Δω) E_B)`, while the row is `(E_A w) · Δω`: equal for aligned frames only
+           (e.g. all three rotations locked and the error zero, not for a hinge that has turned).
+    The statement of C09 holds exactly in the class of `loop_consistency` / `loop_gamma_is_phidd`.
+    For a translational axis on the manifold `G q̈ − γ` differs from `φ̈` by `(ω_A × E_A v) · Δṗ`:
+    `γ = −Ġ q̇` for the code's own `G`, and `G q̇ = φ̇` only where `Δr = 0`, so the two second
+    derivatives agree for velocities that keep `Δr = 0` (or a non-rotating predecessor).
+  * the velocity error of a loop constraint is computed from the matrix `G` passed in, so it is
+    `G q̇` by construction; that of a contact is computed from `CalcPointVelocity`
+    (`velocity_error_is_G_qdot`).
+  * not covered: loop constraints on fixed bodies (ids `≥ fixedDisc`), `update_kinematics = true`
+    for loops (the routines then first run `UpdateKinematicsCustom (Q)`, C05 `update_flag`), and
+    whether the workspace `csvWS` satisfies `JacHyp` (C13 / finding D1).
+-/
+set_option linter.unusedSectionVars false
 namespace Rbdl.C09
-open Lean.Grind Rbdl
-variable {α : Type} [CommRing α]
-theorem placeholder_rot_one : (M3.one : M3 α).IsRot := M3.isRot_one
+open Lean.Grind Rbdl Rbdl.L05 Rbdl.L09 Rbdl.Spec
+
+section
+variable {α : Type} [Field α] [DecidableEq α]
+
+/-! ### 1. bookkeeping of `AddContactConstraint` / `AddLoopConstraint` -/
+
+/-- one call either appends a fresh one-axis constraint whose row is the old `size`, or appends the
+    axis to the last constraint of the same type when body / point / user id (loops: bodies, frames,
+    user id) agree **and the rows of that constraint are the last rows of the system** -/
+theorem addContact_spec (C : CSet α) (body : Nat) (point normal : V3 α) (userId : Nat) :
+    C.addContact body point normal userId
+        = ⟨C.cs ++ [freshContact C.size body point normal userId], C.size + 1⟩ ∨
+    ∃ k c, C.lastOf .contact = some k ∧ C.cs[k]? = some c ∧ c.ctype = .contact ∧
+      c.bodyP = body ∧ c.XP.r = point ∧ c.userId = userId ∧ c.row + c.T.length = C.size ∧
+      C.addContact body point normal userId
+        = ⟨C.cs.set k (extend c ⟨V3.zero, normal⟩ false), C.size + 1⟩ :=
+  addContact_cases C body point normal userId
+
+theorem addLoop_spec (C : CSet α) (idP idS : Nat) (XP XS : XT α) (axis : SV α) (bg : Bool)
+    (ts : α) (userId : Nat) :
+    C.addLoop idP idS XP XS axis bg ts userId
+        = ⟨C.cs ++ [freshLoop C.size idP idS XP XS axis bg ts userId], C.size + 1⟩ ∨
+    ∃ k c, C.lastOf .loop = some k ∧ C.cs[k]? = some c ∧ c.ctype = .loop ∧
+      c.bodyP = idP ∧ c.bodyS = idS ∧ c.XP = XP ∧ c.XS = XS ∧ c.userId = userId ∧
+      c.row + c.T.length = C.size ∧
+      C.addLoop idP idS XP XS axis bg ts userId
+        = ⟨C.cs.set k (extend c axis true), C.size + 1⟩ :=
+  addLoop_cases C idP idS XP XS axis bg ts userId
+
+/-- after **any** sequence of additions: `size` is the number of calls and the total number of axes;
+    in every constraint the flag lists have the length of the axis list, which is not empty; contact
+    constraints have all position flags `false` (zero position error, as documented), loops all
+    `true`; all velocity flags are `true` -/
+theorem bookkeeping (ops : List (L09.Op α)) :
+    (run ops).size = ops.length ∧ (run ops).size = rowsOf (run ops).cs ∧
+    ∀ c ∈ (run ops).cs, c.T ≠ [] ∧ c.posC.length = c.T.length ∧ c.velC.length = c.T.length ∧
+      (c.ctype = .contact → ∀ b ∈ c.posC, b = false) ∧
+      (c.ctype = .loop → ∀ b ∈ c.posC, b = true) ∧ (∀ b ∈ c.velC, b = true) := by
+  have hI : Inv (run ops) := inv_foldl ops _ inv_empty
+  refine ⟨?_, hI.size, fun c hc => ?_⟩
+  · have := size_foldl ops (CSet.empty : CSet α)
+    simpa [run, CSet.empty] using this
+  · have hs := hI.shape c hc
+    refine ⟨hs.ne, hs.pos, hs.vel, fun h b hb => ?_, fun h b hb => ?_, hs.velAll⟩
+    · rw [hs.posAll b hb, h]; rfl
+    · rw [hs.posAll b hb, h]; rfl
+example := bookkeeping L09.Ex.ops
+
+/-- the full per-constraint record (`L09.Shape`) -/
+theorem constraint_shape (ops : List (L09.Op α)) : ∀ c ∈ (run ops).cs, Shape c :=
+  (inv_foldl ops _ inv_empty).shape
+example := constraint_shape L09.Ex.ops
+
+/-- **the rows of the constraints tile `[0, size)`, for every sequence of additions**: constraint `i`
+    starts at the number of axes of the constraints before it (contiguous in list order), the row
+    ranges are pairwise disjoint and below `size`, and every row below `size` belongs to a
+    constraint.  (With the repaired grouping rule: a call is merged into the last constraint of its
+    type only if that constraint's rows are the last rows of the system.) -/
+theorem rows_contiguous (ops : List (L09.Op α)) :
+    (∀ (i : Nat) (c : Constr α), (run ops).cs[i]? = some c → c.row = rowsOf ((run ops).cs.take i)) ∧
+    (∀ (i j : Nat) (ci cj : Constr α), (run ops).cs[i]? = some ci → (run ops).cs[j]? = some cj → i < j →
+      ci.row + ci.T.length ≤ cj.row ∧ cj.row + cj.T.length ≤ (run ops).size) ∧
+    (∀ r, r < (run ops).size → ∃ c ∈ (run ops).cs, c.row ≤ r ∧ r < c.row + c.T.length) := by
+  have hI : Inv (run ops) := inv_foldl ops _ inv_empty
+  have hC : Contig (run ops) := contig_foldl ops _ inv_empty contig_empty
+  exact ⟨hC, fun i j ci cj hi hj hij => hC.disjoint hI i j ci cj hi hj hij, hC.cover hI⟩
+example := rows_contiguous L09.Ex.ops
+/-- the set built by `Ex.ops`: a contact group (rows 0,1), two loop groups (rows 2,3 and 4) -/
+example : (run L09.Ex.ops).cs.map (fun c => (c.ctype, c.row, c.T.length)) =
+    [(.contact, 0, 2), (.loop, 2, 2), (.loop, 4, 1)] ∧ (run L09.Ex.ops).size = 5 := L09.Ex.C_shape
+
+/-- the merge condition `row + #T = size` is what makes this true.  contact, loop, the same contact
+    point again: under the **old** rule (`Ex.addContactOld`: merge whenever body / point / user id
+    agree) the second normal is merged into constraint 0, which then owns rows {0, 1} while the loop
+    constraint keeps row 1 and row 2 belongs to no constraint; under the repaired rule the third call
+    opens a new constraint at row 2 -/
+theorem interleaved_rows_old_rule :
+    L09.Ex.CBadOld.cs.map (fun c => (c.ctype, c.row, c.T.length))
+      = [(.contact, 0, 2), (.loop, 1, 1)] ∧ L09.Ex.CBadOld.size = 3 ∧
+    (run L09.Ex.opsBad).cs.map (fun c => (c.ctype, c.row, c.T.length))
+      = [(.contact, 0, 1), (.loop, 1, 1), (.contact, 2, 1)] ∧ (run L09.Ex.opsBad).size = 3 :=
+  ⟨L09.Ex.CBadOld_rows.1, L09.Ex.CBadOld_rows.2, L09.Ex.opsBad_rows.1, L09.Ex.opsBad_rows.2⟩
+
+/-! ### 2. contact constraints: what is written -/
+
+/-- row `row + k` of the Jacobian is `n_kᵀ J_P` (`J_P` the point Jacobian of the contact point);
+    nothing else is written -/
+theorem contact_jacobian_row (c : Constr α) (hc : c.ctype = .contact) (m : ModelS α) (w : WS α)
+    (st : QS α) (G : MatN α) (update : Bool) (r col : Nat) :
+    (c.jacobian m w st G update).2 r col
+      = if hasRow c r ∧ col < m.qdotSize then
+          (axisAt c r).v.x * (calcPointJacobian m w st c.bodyP c.XP.r zeroMat update).2 0 col
+            + (axisAt c r).v.y * (calcPointJacobian m w st c.bodyP c.XP.r zeroMat update).2 1 col
+            + (axisAt c r).v.z * (calcPointJacobian m w st c.bodyP c.XP.r zeroMat update).2 2 col
+        else G r col :=
+  contact_jacobian_get c hc m w st G update r col
+example (G : MatN Rat) (r col : Nat) :=
+  contact_jacobian_row L09.Ex.cC L09.Ex.cC_contact L09.Ex.m L09.Ex.w2 L09.Ex.st G false r col
+
+/-- (C05) `row · q̇ = n_k · CalcPointVelocity`, and this is exactly the reported velocity error;
+    the reported position error is 0 -/
+theorem contact_row_velocity (c : Constr α) (hc : c.ctype = .contact) (hs : Shape c) (m : ModelS α)
+    (w : WS α) (st : QS α) (qd : VecN α) (G G' : MatN α) (err errd : VecN α)
+    (hJ : JacHyp m w qd) (hP : BodyOK m c.bodyP) (r : Nat) (hr : hasRow c r) :
+    rowDot (c.jacobian m w st G false).2 m.qdotSize r qd
+      = (axisAt c r).v.dot (calcPointVelocity m w st qd c.bodyP c.XP.r false).2 ∧
+    (c.velocityError m w st qd G' errd false).2 r
+      = (axisAt c r).v.dot (calcPointVelocity m w st qd c.bodyP c.XP.r false).2 ∧
+    (c.positionError m w st err false).2 r = 0 := by
+  have hk : r - c.row < c.T.length := by have := hr.1; have := hr.2; omega
+  refine ⟨?_, ?_, ?_⟩
+  · rw [contact_row_dot c hc m w st G false r hr qd]
+    unfold contactJ
+    rw [pointJacobian_mul_ok m w st qd c.bodyP c.XP.r hJ hP]
+  · rw [contact_velocityError_get c hc, if_pos hr, hs.velC_getD _ hk, if_pos rfl, v3_dot_comm]
+  · rw [contact_positionError_get c hc, if_pos hr, hs.posC_getD _ hk, hc]
+    rfl
+example (G G' : MatN Rat) (err errd : VecN Rat) :=
+  contact_row_velocity L09.Ex.cC L09.Ex.cC_contact L09.Ex.cC_shape L09.Ex.m L09.Ex.w2
+    L09.Ex.st L09.Ex.qd G G' err errd L05.Ex.w2_jacHyp L09.Ex.cC_P 1 (by decide +kernel)
+
+/-- the same for a contact point on a **fixed body** (id `≥ fixedDisc`, attached to a movable body) -/
+theorem contact_row_velocity_fixedBody (c : Constr α) (hc : c.ctype = .contact) (hs : Shape c)
+    (m : ModelS α) (w : WS α) (st : QS α) (qd : VecN α) (G G' : MatN α) (err errd : VecN α)
+    (hJ : JacHyp m w qd) (hf : m.isFixedBodyId c.bodyP = true) (h1 : 1 ≤ m.refBody c.bodyP)
+    (hi : m.refBody c.bodyP < m.nBodies) (hrb : ¬ fixedDisc ≤ m.refBody c.bodyP)
+    (r : Nat) (hr : hasRow c r) :
+    rowDot (c.jacobian m w st G false).2 m.qdotSize r qd
+      = (axisAt c r).v.dot (calcPointVelocity m w st qd c.bodyP c.XP.r false).2 ∧
+    (c.velocityError m w st qd G' errd false).2 r
+      = (axisAt c r).v.dot (calcPointVelocity m w st qd c.bodyP c.XP.r false).2 ∧
+    (c.positionError m w st err false).2 r = 0 := by
+  have hk : r - c.row < c.T.length := by have := hr.1; have := hr.2; omega
+  refine ⟨?_, ?_, ?_⟩
+  · rw [contact_row_dot c hc m w st G false r hr qd]
+    unfold contactJ
+    rw [C05.pointJacobian_mul_fixedBody m w st qd c.bodyP c.XP.r hJ hf h1 hi hrb]
+  · rw [contact_velocityError_get c hc, if_pos hr, hs.velC_getD _ hk, if_pos rfl, v3_dot_comm]
+  · rw [contact_positionError_get c hc, if_pos hr, hs.posC_getD _ hk, hc]
+    rfl
+/-- the fixed body of `C04.Ex.m` (attached to body 2) -/
+example (G G' : MatN Rat) (err errd : VecN Rat) :=
+  contact_row_velocity_fixedBody L09.Ex.cF (by decide +kernel) L09.Ex.cF_shape L09.Ex.m L09.Ex.w2
+    L09.Ex.st L09.Ex.qd G G' err errd L05.Ex.w2_jacHyp (by decide +kernel) (by decide +kernel)
+    (by decide +kernel) (by decide +kernel) 0 (by decide +kernel)
+
+/-- the position error of a contact row is 0 whatever the flags of the update and the body id
+    (only the bookkeeping invariant is used) -/
+theorem contact_position_error_zero (c : Constr α) (hc : c.ctype = .contact) (hs : Shape c)
+    (m : ModelS α) (w : WS α) (st : QS α) (err : VecN α) (update : Bool) (r : Nat) :
+    (c.positionError m w st err update).2 r = if hasRow c r then 0 else err r := by
+  rw [contact_positionError_get c hc]
+  by_cases hr : hasRow c r
+  · have hk : r - c.row < c.T.length := by have := hr.1; have := hr.2; omega
+    rw [if_pos hr, if_pos hr, hs.posC_getD _ hk, hc]; rfl
+  · rw [if_neg hr, if_neg hr]
+example (err : VecN Rat) (r : Nat) :=
+  contact_position_error_zero L09.Ex.cC L09.Ex.cC_contact L09.Ex.cC_shape
+    L09.Ex.m L09.Ex.w0 L09.Ex.st err true r
+
+/-- `gamma[row + k] = −n_k · CalcPointAcceleration (…, QDDot = 0, update = false)`: the acceleration
+    the caller left in the workspace -/
+theorem contact_gamma_row (c : Constr α) (hc : c.ctype = .contact) (m : ModelS α) (w : WS α)
+    (st : QS α) (qd : VecN α) (gam : VecN α) (r : Nat) :
+    (c.gamma m w st qd gam).2 r
+      = if hasRow c r then
+          -((axisAt c r).v.dot (calcPointAcceleration m w st qd zeroVec c.bodyP c.XP.r false).2)
+        else gam r :=
+  contact_gamma_get c hc m w st qd gam r
+example (gam : VecN Rat) (r : Nat) :=
+  contact_gamma_row L09.Ex.cC L09.Ex.cC_contact L09.Ex.m L09.Ex.w2 L09.Ex.st L09.Ex.qd gam r
+
+/-! ### 3. loop constraints: what is written (`update_kinematics = false`, ids below `fixedDisc`) -/
+
+/-- row `row + k` is `loopAxis(A, T_k) · (J₆,succ − J₆,pred)` with `A` the world placement of the
+    predecessor frame and `loopAxis(A, t) = (A.E t.w, A.E (t.v − A.r × t.w))` -/
+theorem loop_jacobian_row (c : Constr α) (hc : c.ctype = .loop) (m : ModelS α) (w : WS α)
+    (st : QS α) (G : MatN α) (hP : ¬ fixedDisc ≤ c.bodyP) (r col : Nat) :
+    (c.jacobian m w st G false).2 r col
+      = if hasRow c r ∧ col < m.qdotSize then
+          dot6 (loopAxis (frameOf w c.bodyP c.XP) (axisAt c r))
+            (fun q => (calcPointJacobian6D m w st c.bodyS c.XS.r zeroMat false).2 q col
+                      - (calcPointJacobian6D m w st c.bodyP c.XP.r zeroMat false).2 q col)
+        else G r col :=
+  loop_jacobian_get c hc m w st G hP r col
+example (G : MatN Rat) (r col : Nat) :=
+  loop_jacobian_row L09.Ex.cL L09.Ex.cL_loop L09.Ex.m L09.Ex.w2 L09.Ex.st G (by decide +kernel) r col
+
+theorem loopAxis_formula (A : XT α) (t : SV α) :
+    loopAxis A t = ⟨A.E * t.w, A.E * (t.v - A.r.cross t.w)⟩ := rfl
+
+/-- the velocity error is `row · q̇` of the matrix passed in; the position error is
+    `T_k · loopError(A, B)`, `loopError = (axial(A.Eᵀ B.E), A.Eᵀ (B.r − A.r))`: relative displacement and
+    sine-scaled relative rotation in predecessor-frame axes -/
+theorem loop_errors (c : Constr α) (hc : c.ctype = .loop) (hs : Shape c) (m : ModelS α) (w : WS α)
+    (st : QS α) (qd : VecN α) (G : MatN α) (err errd : VecN α) (update : Bool)
+    (hP : ¬ fixedDisc ≤ c.bodyP) (hS : ¬ fixedDisc ≤ c.bodyS) (r : Nat) (hr : hasRow c r) :
+    (c.velocityError m w st qd G errd update).2 r = rowDot G m.qdotSize r qd ∧
+    (c.positionError m w st err false).2 r
+      = (axisAt c r).dot (loopError (frameOf w c.bodyP c.XP) (frameOf w c.bodyS c.XS)) ∧
+    loopError (frameOf w c.bodyP c.XP) (frameOf w c.bodyS c.XS)
+      = ⟨axial ((frameOf w c.bodyP c.XP).E.transpose * (frameOf w c.bodyS c.XS).E),
+         (frameOf w c.bodyP c.XP).E.tmulVec ((frameOf w c.bodyS c.XS).r - (frameOf w c.bodyP c.XP).r)⟩ := by
+  have hk : r - c.row < c.T.length := by have := hr.1; have := hr.2; omega
+  refine ⟨?_, ?_, rfl⟩
+  · rw [loop_velocityError_get c hc, if_pos hr, hs.velC_getD _ hk, if_pos rfl]
+  · rw [loop_positionError_get c hc m w st err hP hS, if_pos hr, hs.posC_getD _ hk, hc]
+    rfl
+example (G : MatN Rat) (err errd : VecN Rat) :=
+  loop_errors L09.Ex.cL L09.Ex.cL_loop L09.Ex.cL_shape L09.Ex.m L09.Ex.w2 L09.Ex.st L09.Ex.qd G
+    err errd false (by decide +kernel) (by decide +kernel) 3 (by decide +kernel)
+
+/-- `gamma[row + k] = −e · (A_succ − A_pred) − (V_pred ×ₘ e) · (V_succ − V_pred)` with `e` the axis
+    resolved as above and `V`, `A` the 6-D point velocities / accelerations in the workspace -/
+theorem loop_gamma_row (c : Constr α) (hc : c.ctype = .loop) (m : ModelS α) (w : WS α) (st : QS α)
+    (qd : VecN α) (gam : VecN α) (hP : ¬ fixedDisc ≤ c.bodyP) (hS : ¬ fixedDisc ≤ c.bodyS) (r : Nat) :
+    (c.gamma m w st qd gam).2 r
+      = if hasRow c r then
+          -((loopAxis (frameOf w c.bodyP c.XP) (axisAt c r)).dot
+              (acc6 w c.bodyS c.XS.r - acc6 w c.bodyP c.XP.r))
+          - (crossm (vel6 w c.bodyP c.XP.r) (loopAxis (frameOf w c.bodyP c.XP) (axisAt c r))).dot
+              (vel6 w c.bodyS c.XS.r - vel6 w c.bodyP c.XP.r)
+        else gam r :=
+  loop_gamma_get c hc m w st qd gam hP hS r
+example (gam : VecN Rat) (r : Nat) :=
+  loop_gamma_row L09.Ex.cL L09.Ex.cL_loop L09.Ex.m L09.Ex.w2 L09.Ex.st L09.Ex.qd gam (by decide +kernel) (by decide +kernel) r
+
+/-! ### 4. `G q̇ = dφ/dt` -/
+
+/-- **contacts, unconditionally**: after `UpdateKinematics (Q, QDot, QDDot)` the row times `q̇`, and
+    the reported velocity error, are the first time derivative of `φ_k = n_k · (p + R x)` along the
+    trajectory, for every `q̇` (and `q̈`); the reported position error is 0 -/
+theorem contact_consistency (h2 : (2 : α) ≠ 0) (m : ModelS α) (w : WS α) (st : QS α)
+    (qd qdd : VecN α) (hS : Setup m w st) (c : Constr α) (hc : c.ctype = .contact) (hs : Shape c)
+    (hP : BodyOK m c.bodyP) (G G' : MatN α) (err errd : VecN α) (r : Nat) (hr : hasRow c r) :
+    rowDot (c.jacobian m (updateKinematics m w st qd qdd) st G false).2 m.qdotSize r qd
+      = (contactPhi (bodyPoseJet m st qd qdd c.bodyP) c.XP.r (axisAt c r).v).d1 ∧
+    (c.velocityError m (updateKinematics m w st qd qdd) st qd G' errd false).2 r
+      = (contactPhi (bodyPoseJet m st qd qdd c.bodyP) c.XP.r (axisAt c r).v).d1 ∧
+    (c.positionError m (updateKinematics m w st qd qdd) st err false).2 r = 0 := by
+  obtain ⟨e1, e2, e3⟩ := contact_row_velocity c hc hs m _ st qd G G' err errd (hS.jacHyp qd qdd) hP
+    r hr
+  have hv : (calcPointVelocity m (updateKinematics m w st qd qdd) st qd c.bodyP c.XP.r false).2
+      = (NodeKin.ofPose (bodyPoseJet m st qd qdd c.bodyP)).ptd c.XP.r := by
+    show (calcPointVelocity6D m _ st qd c.bodyP c.XP.r false).2.v = _
+    rw [pointVelocity6D_eq _ _ _ _ _ _ hP.notFixed]
+    dsimp only
+    rw [(hS.bodyJet h2 qd qdd c.bodyP hP).vel6 h2]
+  rw [e1, e2, hv, contactPhi_d1]
+  exact ⟨rfl, rfl, e3⟩
+example (G G' : MatN Rat) (err errd : VecN Rat) :=
+  contact_consistency L09.Ex.two_ne L09.Ex.m L09.Ex.w0 L09.Ex.st L09.Ex.qd L09.Ex.qdd L09.Ex.setup L09.Ex.cC L09.Ex.cC_contact
+    L09.Ex.cC_shape L09.Ex.cC_P G G' err errd 1 (by decide +kernel)
+
+/-- **loops, exact**: `row · q̇ = φ̇_k + velGap` after `UpdateKinematics`, where `φ_k` is the
+    constraint function of `Spec.constrPhi` (`loopPhi`) whose value is the reported position error -/
+theorem loop_velocity_gap (h2 : (2 : α) ≠ 0) (m : ModelS α) (w : WS α) (st : QS α)
+    (qd qdd : VecN α) (hS : Setup m w st) (c : Constr α) (hc : c.ctype = .loop) (hs : Shape c)
+    (hP : BodyOK m c.bodyP) (hB : BodyOK m c.bodyS) (G : MatN α) (err : VecN α) (r : Nat)
+    (hr : hasRow c r) :
+    rowDot (c.jacobian m (updateKinematics m w st qd qdd) st G false).2 m.qdotSize r qd
+      = (loopPhi (framePlacement (bodyPoseJet m st qd qdd c.bodyP) c.XP)
+            (framePlacement (bodyPoseJet m st qd qdd c.bodyS) c.XS) (axisAt c r)).d1
+        + velGap (NodeKin.ofPose (framePlacement (bodyPoseJet m st qd qdd c.bodyP) c.XP))
+            (NodeKin.ofPose (framePlacement (bodyPoseJet m st qd qdd c.bodyS) c.XS))
+            (NodeKin.ofPose (bodyPoseJet m st qd qdd c.bodyP)).omega
+            (NodeKin.ofPose (bodyPoseJet m st qd qdd c.bodyS)).omega (axisAt c r) ∧
+    (c.positionError m (updateKinematics m w st qd qdd) st err false).2 r
+      = (loopPhi (framePlacement (bodyPoseJet m st qd qdd c.bodyP) c.XP)
+            (framePlacement (bodyPoseJet m st qd qdd c.bodyS) c.XS) (axisAt c r)).x :=
+  ⟨loop_velocity_exact h2 c hc m _ st qd G (hS.jacHyp qd qdd) hP hB _ _
+      (hS.bodyJet h2 qd qdd c.bodyP hP) (hS.bodyJet h2 qd qdd c.bodyS hB) r hr,
+   loop_positionError_phi c hc hs m _ st err hP hB _ _
+      (hS.bodyJet h2 qd qdd c.bodyP hP) (hS.bodyJet h2 qd qdd c.bodyS hB) r hr⟩
+example (G : MatN Rat) (err : VecN Rat) :=
+  loop_velocity_gap L09.Ex.two_ne L09.Ex.m L09.Ex.w0 L09.Ex.st L09.Ex.qd L09.Ex.qdd L09.Ex.setup L09.Ex.cM L09.Ex.cM_loop
+    L09.Ex.cM_shape L09.Ex.cM_P L09.Ex.cM_S G err 4 (by decide +kernel)
+
+/-- **loops, the class in which the statement of C09 holds** (`w' = ` the workspace after
+    `UpdateKinematics`, `A`, `B` the world placements of the two frames, `t` the axis):
+    * `t.w = 0`, or the two frames are aligned (`A.E = B.E`, a rotation);
+    * `A.r × t.w = 0` (predecessor frame origin at the base origin, or on the axis through it, or a
+      purely translational axis);
+    * `t.v = 0`, or the predecessor does not rotate, or the frame origins coincide.
+    Then `row · q̇ = φ̇_k` for every `q̇`, and this is the velocity error reported from that row -/
+theorem loop_consistency (h2 : (2 : α) ≠ 0) (m : ModelS α) (w : WS α) (st : QS α)
+    (qd qdd : VecN α) (hS : Setup m w st) (c : Constr α) (hc : c.ctype = .loop) (hs : Shape c)
+    (hP : BodyOK m c.bodyP) (hB : BodyOK m c.bodyS) (G : MatN α) (errd : VecN α) (r : Nat)
+    (hr : hasRow c r)
+    (hrot : (axisAt c r).w = V3.zero ∨
+      ((frameOf (updateKinematics m w st qd qdd) c.bodyS c.XS).E
+          = (frameOf (updateKinematics m w st qd qdd) c.bodyP c.XP).E ∧
+        (frameOf (updateKinematics m w st qd qdd) c.bodyP c.XP).E.IsRot))
+    (ha : (frameOf (updateKinematics m w st qd qdd) c.bodyP c.XP).r.cross (axisAt c r).w = V3.zero)
+    (hb : (axisAt c r).v = V3.zero ∨
+      (vel6 (updateKinematics m w st qd qdd) c.bodyP c.XP.r).w = V3.zero ∨
+      (frameOf (updateKinematics m w st qd qdd) c.bodyS c.XS).r
+        = (frameOf (updateKinematics m w st qd qdd) c.bodyP c.XP).r) :
+    rowDot (c.jacobian m (updateKinematics m w st qd qdd) st G false).2 m.qdotSize r qd
+      = (loopPhi (framePlacement (bodyPoseJet m st qd qdd c.bodyP) c.XP)
+            (framePlacement (bodyPoseJet m st qd qdd c.bodyS) c.XS) (axisAt c r)).d1 ∧
+    (c.velocityError m (updateKinematics m w st qd qdd) st qd
+        (c.jacobian m (updateKinematics m w st qd qdd) st G false).2 errd false).2 r
+      = (loopPhi (framePlacement (bodyPoseJet m st qd qdd c.bodyP) c.XP)
+            (framePlacement (bodyPoseJet m st qd qdd c.bodyS) c.XS) (axisAt c r)).d1 := by
+  have jA := hS.bodyJet h2 qd qdd c.bodyP hP
+  have jB := hS.bodyJet h2 qd qdd c.bodyS hB
+  obtain ⟨rA, pA, oA, _, _, _⟩ := jA.read h2 c.XP
+  obtain ⟨rB, pB, _, _, _, _⟩ := jB.read h2 c.XS
+  have e := (loop_velocity_gap h2 m w st qd qdd hS c hc hs hP hB G errd r hr).1
+  rw [velGap_zero h2 _ _ _ _ _ (by rw [rA, rB]; exact hrot) (by rw [pA]; exact ha)
+    (by rw [oA, pA, pB]; exact hb)] at e
+  have e' : rowDot (c.jacobian m (updateKinematics m w st qd qdd) st G false).2 m.qdotSize r qd
+      = (loopPhi (framePlacement (bodyPoseJet m st qd qdd c.bodyP) c.XP)
+            (framePlacement (bodyPoseJet m st qd qdd c.bodyS) c.XS) (axisAt c r)).d1 := by
+    rw [e]; grind
+  exact ⟨e', by rw [(loop_errors c hc hs m _ st qd _ errd errd false hP.notFixed hB.notFixed r hr).1, e']⟩
+
+/-- row 2 of `Ex.cL`: rotation about z locked between the base (frame at the base origin, aligned
+    with the successor frame) and body 1 -/
+example (G : MatN Rat) (errd : VecN Rat) :=
+  loop_consistency L09.Ex.two_ne L09.Ex.m L09.Ex.w0 L09.Ex.st L09.Ex.qd L09.Ex.qdd L09.Ex.setup L09.Ex.cL
+    L09.Ex.cL_loop L09.Ex.cL_shape L09.Ex.cL_P L09.Ex.cL_S G errd 2 (by decide +kernel)
+    (Or.inr ⟨by decide +kernel, by constructor <;> decide +kernel⟩) (by decide +kernel)
+    (Or.inl (by decide +kernel))
+/-- row 3 of `Ex.cL`: the translation along `(1,2,0)` of the (non-rotating) base frame locked, frame
+    origins apart -/
+example (G : MatN Rat) (errd : VecN Rat) :=
+  loop_consistency L09.Ex.two_ne L09.Ex.m L09.Ex.w0 L09.Ex.st L09.Ex.qd L09.Ex.qdd L09.Ex.setup L09.Ex.cL
+    L09.Ex.cL_loop L09.Ex.cL_shape L09.Ex.cL_P L09.Ex.cL_S G errd 3 (by decide +kernel)
+    (Or.inl (by decide +kernel)) (by decide +kernel) (Or.inr (Or.inl (by decide +kernel)))
+
+/-! ### 5. `γ = −φ̈|_{q̈ = 0}` and `G q̈ − γ` -/
+
+/-- **contacts**: with the accelerations for `q̈ = 0` in the workspace (`UpdateKinematics (Q, QDot, 0)`),
+    `γ_k = −φ̈_k|_{q̈ = 0}` -/
+theorem contact_gamma_is_phidd (h2 : (2 : α) ≠ 0) (m : ModelS α) (w : WS α) (st : QS α)
+    (qd : VecN α) (hS : Setup m w st) (c : Constr α) (hc : c.ctype = .contact)
+    (hP : BodyOK m c.bodyP) (gam : VecN α) (r : Nat) (hr : hasRow c r) :
+    (c.gamma m (updateKinematics m w st qd zeroVec) st qd gam).2 r
+      = -(contactPhi (bodyPoseJet m st qd zeroVec c.bodyP) c.XP.r (axisAt c r).v).d2 := by
+  rw [contact_gamma_get c hc, if_pos hr, contactPhi_d2]
+  have ha : (calcPointAcceleration m (updateKinematics m w st qd zeroVec) st qd zeroVec c.bodyP
+      c.XP.r false).2 = (NodeKin.ofPose (bodyPoseJet m st qd zeroVec c.bodyP)).ptdd c.XP.r := by
+    show (calcPointAcceleration6D m _ st qd zeroVec c.bodyP c.XP.r false).2.v = _
+    rw [pointAcceleration6D_eq _ _ _ _ _ _ _ hP.notFixed]
+    dsimp only
+    rw [(hS.bodyJet h2 qd zeroVec c.bodyP hP).acc6 h2]
+  rw [ha]
+example (gam : VecN Rat) :=
+  contact_gamma_is_phidd L09.Ex.two_ne L09.Ex.m L09.Ex.w0 L09.Ex.st L09.Ex.qd L09.Ex.setup L09.Ex.cC L09.Ex.cC_contact L09.Ex.cC_P gam 0
+    (by decide +kernel)
+
+/-- **contacts**: the point acceleration is affine in `q̈` with the point Jacobian as linear part,
+    hence for every `q̈`: `G q̈ − γ(q, q̇) = n_k · a_P(q, q̇, q̈)` (accelerations as
+    `UpdateKinematicsCustom (NULL, NULL, &QDDot)` leaves them, the call
+    `CalcConstrainedSystemVariables` makes before `calcGamma`) -/
+theorem contact_Gqddot_minus_gamma (c : Constr α) (hc : c.ctype = .contact) (m : ModelS α)
+    (w : WS α) (st : QS α) (qd qdd : VecN α) (G : MatN α) (gam : VecN α) (hJ : JacHyp m w qd)
+    (hP : BodyOK m c.bodyP) (r : Nat) (hr : hasRow c r) :
+    rowDot (c.jacobian m w st G false).2 m.qdotSize r qdd
+        - (c.gamma m (updateKinematicsCustom m w none none (some zeroVec)) st qd gam).2 r
+      = (axisAt c r).v.dot
+          (calcPointAcceleration m (updateKinematicsCustom m w none none (some qdd)) st qd qdd
+            c.bodyP c.XP.r false).2 :=
+  contact_Gqdd_minus_gamma c hc m w st qd qdd G gam hJ hP r hr
+example (G : MatN Rat) (gam : VecN Rat) :=
+  contact_Gqddot_minus_gamma L09.Ex.cC L09.Ex.cC_contact L09.Ex.m L09.Ex.w2 L09.Ex.st L09.Ex.qd L09.Ex.qdd G gam
+    L05.Ex.w2_jacHyp L09.Ex.cC_P 0 (by decide +kernel)
+
+/-- the affine fact itself (6-D, base body or movable body) -/
+theorem point_acceleration_affine (m : ModelS α) (w : WS α) (st : QS α) (qd qdd : VecN α)
+    (id : Nat) (p : V3 α) (h : JacHyp m w qd) (hid : BodyOK m id) :
+    (calcPointAcceleration6D m (updateKinematicsCustom m w none none (some qdd)) st qd qdd id p
+        false).2
+      = (calcPointAcceleration6D m (updateKinematicsCustom m w none none (some zeroVec)) st qd
+          zeroVec id p false).2
+        + mulVecSV (calcPointJacobian6D m w st id p zeroMat false).2 m.qdotSize qdd :=
+  pointAcceleration6D_affine_ok m w st qd qdd id p h hid
+example (p : V3 Rat) :=
+  point_acceleration_affine L09.Ex.m L09.Ex.w2 L09.Ex.st L09.Ex.qd L09.Ex.qdd 3 p L05.Ex.w2_jacHyp L09.Ex.body3_ok
+
+/-- **loops, exact**: `γ_k = −(φ̈_k|_{q̈=0} + accGap)` (purely translational axis, or aligned frames) -/
+theorem loop_gamma_gap (h2 : (2 : α) ≠ 0) (m : ModelS α) (w : WS α) (st : QS α)
+    (qd : VecN α) (hS : Setup m w st) (c : Constr α) (hc : c.ctype = .loop)
+    (hP : BodyOK m c.bodyP) (hB : BodyOK m c.bodyS) (gam : VecN α) (r : Nat) (hr : hasRow c r)
+    (hrot : (axisAt c r).w = V3.zero ∨
+      ((frameOf (updateKinematics m w st qd zeroVec) c.bodyS c.XS).E
+          = (frameOf (updateKinematics m w st qd zeroVec) c.bodyP c.XP).E ∧
+        (frameOf (updateKinematics m w st qd zeroVec) c.bodyP c.XP).E.IsRot)) :
+    (c.gamma m (updateKinematics m w st qd zeroVec) st qd gam).2 r
+      = -((loopPhi (framePlacement (bodyPoseJet m st qd zeroVec c.bodyP) c.XP)
+            (framePlacement (bodyPoseJet m st qd zeroVec c.bodyS) c.XS) (axisAt c r)).d2
+          + accGap (NodeKin.ofPose (framePlacement (bodyPoseJet m st qd zeroVec c.bodyP) c.XP))
+              (NodeKin.ofPose (framePlacement (bodyPoseJet m st qd zeroVec c.bodyS) c.XS))
+              (NodeKin.ofPose (bodyPoseJet m st qd zeroVec c.bodyP)).omega (axisAt c r)) := by
+  have jA := hS.bodyJet h2 qd zeroVec c.bodyP hP
+  have jB := hS.bodyJet h2 qd zeroVec c.bodyS hB
+  obtain ⟨rA, _, _, _, _, _⟩ := jA.read h2 c.XP
+  obtain ⟨rB, _, _, _, _, _⟩ := jB.read h2 c.XS
+  exact loop_gamma_exact h2 c hc m _ st qd gam hP hB _ _ jA jB r hr (by rw [rA, rB]; exact hrot)
+example (gam : VecN Rat) :=
+  loop_gamma_gap L09.Ex.two_ne L09.Ex.m L09.Ex.w0 L09.Ex.st L09.Ex.qd L09.Ex.setup L09.Ex.cM L09.Ex.cM_loop L09.Ex.cM_P L09.Ex.cM_S gam 4
+    (by decide +kernel) (Or.inl (by decide +kernel))
+
+/-- **loops, the class in which `γ = −φ̈|_{q̈=0}`**: in addition to the rotational condition,
+    * `A.r × t.w = 0`;
+    * `t.w = 0`, or the predecessor frame origin is at rest, or both origins move alike;
+    * `t.v = 0`, or the predecessor has neither angular velocity nor angular acceleration, or the
+      frame origins coincide and move alike -/
+theorem loop_gamma_is_phidd (h2 : (2 : α) ≠ 0) (m : ModelS α) (w : WS α) (st : QS α)
+    (qd : VecN α) (hS : Setup m w st) (c : Constr α) (hc : c.ctype = .loop)
+    (hP : BodyOK m c.bodyP) (hB : BodyOK m c.bodyS) (gam : VecN α) (r : Nat) (hr : hasRow c r)
+    (hrot : (axisAt c r).w = V3.zero ∨
+      ((frameOf (updateKinematics m w st qd zeroVec) c.bodyS c.XS).E
+          = (frameOf (updateKinematics m w st qd zeroVec) c.bodyP c.XP).E ∧
+        (frameOf (updateKinematics m w st qd zeroVec) c.bodyP c.XP).E.IsRot))
+    (ha : (frameOf (updateKinematics m w st qd zeroVec) c.bodyP c.XP).r.cross (axisAt c r).w
+      = V3.zero)
+    (hv : (axisAt c r).w = V3.zero ∨
+      (vel6 (updateKinematics m w st qd zeroVec) c.bodyP c.XP.r).v = V3.zero ∨
+      (vel6 (updateKinematics m w st qd zeroVec) c.bodyS c.XS.r).v
+        = (vel6 (updateKinematics m w st qd zeroVec) c.bodyP c.XP.r).v)
+    (hb : (axisAt c r).v = V3.zero ∨
+      ((vel6 (updateKinematics m w st qd zeroVec) c.bodyP c.XP.r).w = V3.zero ∧
+        (acc6 (updateKinematics m w st qd zeroVec) c.bodyP c.XP.r).w = V3.zero) ∨
+      ((frameOf (updateKinematics m w st qd zeroVec) c.bodyS c.XS).r
+          = (frameOf (updateKinematics m w st qd zeroVec) c.bodyP c.XP).r ∧
+        (vel6 (updateKinematics m w st qd zeroVec) c.bodyS c.XS.r).v
+          = (vel6 (updateKinematics m w st qd zeroVec) c.bodyP c.XP.r).v)) :
+    (c.gamma m (updateKinematics m w st qd zeroVec) st qd gam).2 r
+      = -(loopPhi (framePlacement (bodyPoseJet m st qd zeroVec c.bodyP) c.XP)
+            (framePlacement (bodyPoseJet m st qd zeroVec c.bodyS) c.XS) (axisAt c r)).d2 := by
+  have jA := hS.bodyJet h2 qd zeroVec c.bodyP hP
+  have jB := hS.bodyJet h2 qd zeroVec c.bodyS hB
+  obtain ⟨_, pA, oA, vA, odA, _⟩ := jA.read h2 c.XP
+  obtain ⟨_, pB, _, vB, _, _⟩ := jB.read h2 c.XS
+  rw [loop_gamma_gap h2 m w st qd hS c hc hP hB gam r hr hrot,
+    accGap_zero _ _ _ _ (by rw [pA]; exact ha) (by rw [vA, vB]; exact hv) ?_]
+  · grind
+  · rcases hb with h | ⟨h, h'⟩ | ⟨h, h'⟩
+    · exact Or.inl h
+    · exact Or.inr (Or.inl ⟨by rw [oA]; exact h,
+        (jA.frameJet h2 c.XP).rdd_zero (by rw [oA]; exact h) (by rw [odA]; exact h')⟩)
+    · exact Or.inr (Or.inr ⟨by rw [pA, pB]; exact h, by rw [vA, vB]; exact h'⟩)
+
+example (gam : VecN Rat) :=
+  loop_gamma_is_phidd L09.Ex.two_ne L09.Ex.m L09.Ex.w0 L09.Ex.st L09.Ex.qd L09.Ex.setup L09.Ex.cL
+    L09.Ex.cL_loop L09.Ex.cL_P L09.Ex.cL_S gam 2 (by decide +kernel)
+    (Or.inr ⟨by decide +kernel, by constructor <;> decide +kernel⟩) (by decide +kernel)
+    (Or.inr (Or.inl (by decide +kernel))) (Or.inl (by decide +kernel))
+example (gam : VecN Rat) :=
+  loop_gamma_is_phidd L09.Ex.two_ne L09.Ex.m L09.Ex.w0 L09.Ex.st L09.Ex.qd L09.Ex.setup L09.Ex.cL
+    L09.Ex.cL_loop L09.Ex.cL_P L09.Ex.cL_S gam 3 (by decide +kernel)
+    (Or.inl (by decide +kernel)) (by decide +kernel)
+    (Or.inl (by decide +kernel)) (Or.inr (Or.inl ⟨by decide +kernel, by decide +kernel⟩))
+
+/-- **loops**: for every `q̈`, `G q̈ − γ(q, q̇)` is the acceleration-level expression of the code,
+    `e · (A_succ(q̈) − A_pred(q̈)) + (V_pred ×ₘ e) · (V_succ − V_pred)`; with `loop_gamma_gap` applied
+    to the jets for `q̈` this is `φ̈ + accGap` -/
+theorem loop_Gqddot_minus_gamma (c : Constr α) (hc : c.ctype = .loop) (m : ModelS α) (w : WS α)
+    (st : QS α) (qd qdd : VecN α) (G : MatN α) (gam : VecN α) (hJ : JacHyp m w qd)
+    (hP : BodyOK m c.bodyP) (hS : BodyOK m c.bodyS) (r : Nat) (hr : hasRow c r) :
+    rowDot (c.jacobian m w st G false).2 m.qdotSize r qdd
+        - (c.gamma m (updateKinematicsCustom m w none none (some zeroVec)) st qd gam).2 r
+      = (loopAxis (frameOf w c.bodyP c.XP) (axisAt c r)).dot
+          (acc6 (updateKinematicsCustom m w none none (some qdd)) c.bodyS c.XS.r
+            - acc6 (updateKinematicsCustom m w none none (some qdd)) c.bodyP c.XP.r)
+        + (crossm (vel6 w c.bodyP c.XP.r) (loopAxis (frameOf w c.bodyP c.XP) (axisAt c r))).dot
+            (vel6 w c.bodyS c.XS.r - vel6 w c.bodyP c.XP.r) :=
+  loop_Gqdd_minus_gamma c hc m w st qd qdd G gam hJ hP hS r hr
+example (G : MatN Rat) (gam : VecN Rat) :=
+  loop_Gqddot_minus_gamma L09.Ex.cL L09.Ex.cL_loop L09.Ex.m L09.Ex.w2 L09.Ex.st L09.Ex.qd L09.Ex.qdd G gam L05.Ex.w2_jacHyp
+    L09.Ex.cL_P L09.Ex.cL_S 2 (by decide +kernel)
+
+/-! ### 6. Baumgarte stabilisation -/
+
+/-- on the rows of the constraint `−2 a errd − b² err` is added (`a`, `b` the two stabilisation
+    parameters), all other rows are unchanged; with `baumgarte = false` nothing changes -/
+theorem baumgarte_rows (c : Constr α) (err errd gam : VecN α) (r : Nat) :
+    c.addBaumgarte err errd gam r
+      = if c.baumgarte = true ∧ hasRow c r
+        then gam r + (-(2 * c.bgA * errd r) - c.bgB * c.bgB * err r) else gam r :=
+  addBaumgarte_get c err errd gam r
+
+theorem baumgarte_off (c : Constr α) (h : c.baumgarte = false) (err errd gam : VecN α) :
+    c.addBaumgarte err errd gam = gam := by
+  unfold Constr.addBaumgarte; rw [h]; rfl
+example (err errd gam : VecN Rat) := baumgarte_off L09.Ex.cC (by decide +kernel) err errd gam
+
+/-! ### 6'. whole constraint sets (the loops over the constraints) -/
+
+/-- for a set built by any sequence of additions on ids below `fixedDisc`
+    (`update_kinematics = false`): `CalcConstraintsJacobian`, `CalcConstraintsPositionError`,
+    `CalcConstraintsVelocityError` leave in the rows of every constraint exactly what that
+    constraint writes (sections 2, 3), rows of no constraint keep the input, and the workspace is
+    not changed by the Jacobian loop -/
+theorem constraint_set_rows (ops : List (L09.Op α))
+    (hn : ∀ c ∈ (run ops).cs, NoFixed c) (m : ModelS α) (w : WS α) (st : QS α) (qd : VecN α)
+    (G : MatN α) (err errd : VecN α) :
+    (calcConstraintsJacobian m w st (run ops) G false).1 = w ∧
+    (∀ c ∈ (run ops).cs, ∀ r, hasRow c r → ∀ col, col < m.qdotSize →
+      (calcConstraintsJacobian m w st (run ops) G false).2 r col
+        = (c.jacobian m w st zeroMat false).2 r col) ∧
+    (∀ r col, (∀ c ∈ (run ops).cs, ¬ hasRow c r) ∨ ¬ col < m.qdotSize →
+      (calcConstraintsJacobian m w st (run ops) G false).2 r col = G r col) ∧
+    (∀ c ∈ (run ops).cs, ∀ r, hasRow c r →
+      (calcConstraintsPositionError m w st (run ops) err false).2 r
+        = (c.positionError m w st (fun _ => 0) false).2 r) ∧
+    (calcConstraintsVelocityError m w st qd (run ops) G errd false).2.1
+      = (calcConstraintsJacobian m w st (run ops) G false).2 ∧
+    (∀ c ∈ (run ops).cs, ∀ r, hasRow c r →
+      (calcConstraintsVelocityError m w st qd (run ops) G errd false).2.2 r
+        = (c.velocityError m w st qd (calcConstraintsJacobian m w st (run ops) G false).2
+            (fun _ => 0) false).2 r) := by
+  have hI : Inv (run ops) := inv_foldl ops _ inv_empty
+  have hC : Contig (run ops) := contig_foldl ops _ inv_empty contig_empty
+  obtain ⟨j1, j2, j3⟩ := constraintsJacobian_rows (run ops) hI hC hn m w st G
+  have hv : calcConstraintsVelocityError m w st qd (run ops) G errd false
+      = (((run ops).cs.foldl (fun (s : WS α × VecN α) c =>
+            c.velocityError m s.1 st qd (calcConstraintsJacobian m w st (run ops) G false).2 s.2 false)
+            ((calcConstraintsJacobian m w st (run ops) G false).1, errd)).1,
+         (calcConstraintsJacobian m w st (run ops) G false).2,
+         ((run ops).cs.foldl (fun (s : WS α × VecN α) c =>
+            c.velocityError m s.1 st qd (calcConstraintsJacobian m w st (run ops) G false).2 s.2 false)
+            ((calcConstraintsJacobian m w st (run ops) G false).1, errd)).2) := rfl
+  refine ⟨j1, j2, j3, (constraintsPositionError_rows (run ops) hI hC hn m w st err).2.1, ?_, ?_⟩
+  · rw [hv]
+  · intro c hc r hr
+    rw [hv, j1]
+    exact (constraintsVelocityError_rows (run ops) hI hC hn m w st qd _ errd).1 c hc r hr
+example (G : MatN Rat) (err errd : VecN Rat) :=
+  constraint_set_rows L09.Ex.ops L09.Ex.ops_noFixed L09.Ex.m L09.Ex.w2 L09.Ex.st
+    L09.Ex.qd G err errd
+
+/-- **the reported velocity error is `G q̇`, row by row, for the whole set**: the vector returned by
+    `CalcConstraintsVelocityError` is the product of the matrix it returns with `q̇` (contact rows:
+    through C05, loop rows: by construction) -/
+theorem velocity_error_is_G_qdot (ops : List (L09.Op α))
+    (hn : ∀ c ∈ (run ops).cs, NoFixed c) (m : ModelS α) (w : WS α) (st : QS α) (qd : VecN α)
+    (G : MatN α) (errd : VecN α) (hJ : JacHyp m w qd)
+    (hP : ∀ c ∈ (run ops).cs, c.ctype = .contact → BodyOK m c.bodyP) :
+    ∀ c ∈ (run ops).cs, ∀ r, hasRow c r →
+      (calcConstraintsVelocityError m w st qd (run ops) G errd false).2.2 r
+        = rowDot (calcConstraintsVelocityError m w st qd (run ops) G errd false).2.1 m.qdotSize r
+            qd := by
+  intro c hc r hr
+  obtain ⟨_, j2, _, _, v1, v2⟩ := constraint_set_rows ops hn m w st qd G errd errd
+  have hs := constraint_shape ops c hc
+  rw [v2 c hc r hr, v1]
+  cases hct : c.ctype with
+  | loop => exact (loop_errors c hct hs m w st qd _ errd (fun _ => 0) false (hn c hc).1 (hn c hc).2 r
+      hr).1
+  | contact =>
+    obtain ⟨e1, e2, _⟩ := contact_row_velocity c hct hs m w st qd zeroMat
+      (calcConstraintsJacobian m w st (run ops) G false).2 errd (fun _ => 0) hJ (hP c hc hct) r hr
+    rw [e2, ← e1]
+    exact sumTo_congr _ _ _ (fun j hj => by rw [j2 c hc r hr j hj])
+example (G : MatN Rat) (errd : VecN Rat) :=
+  velocity_error_is_G_qdot L09.Ex.ops L09.Ex.ops_noFixed L09.Ex.m L09.Ex.w2
+    L09.Ex.st L09.Ex.qd G errd L05.Ex.w2_jacHyp L09.Ex.ops_contactOK
+
+/-- the gamma loop of `CalcConstrainedSystemVariables`: in the rows of constraint `c` stands
+    `calcGamma` of `c` (sections 2, 3, 5) plus `−2 a errd − b² err` if `c` is stabilised -/
+theorem gamma_loop_rows (ops : List (L09.Op α))
+    (hn : ∀ c ∈ (run ops).cs, NoFixed c) (m : ModelS α) (w : WS α) (st : QS α) (qd : VecN α)
+    (err errd : VecN α) :
+    ∀ c ∈ (run ops).cs, ∀ r, hasRow c r →
+      ((run ops).cs.foldl (fun (s : WS α × VecN α) c =>
+          let (w, g) := c.gamma m s.1 st qd s.2
+          (w, c.addBaumgarte err errd g)) (w, fun _ => 0)).2 r
+        = (c.gamma m w st qd (fun _ => 0)).2 r
+          + (if c.baumgarte = true then -(2 * c.bgA * errd r) - c.bgB * c.bgB * err r else 0) :=
+  (gammaLoop_rows (run ops) (inv_foldl ops _ inv_empty)
+    (contig_foldl ops _ inv_empty contig_empty) hn m w st qd err errd).1
+example (err errd : VecN Rat) :=
+  gamma_loop_rows L09.Ex.ops L09.Ex.ops_noFixed L09.Ex.m L09.Ex.w2 L09.Ex.st L09.Ex.qd
+    err errd
+
+/-- **`CalcConstrainedSystemVariables`**: the fields `G`, `err`, `errd`, `gamma` of the result hold in
+    the rows of every constraint `c` what `c` writes (sections 2, 3) when evaluated in the workspace
+    `W = csvWS …` left by `NonlinearEffects` and the composite-rigid-body algorithm — `gamma` in `W`
+    after `UpdateKinematicsCustom (NULL, NULL, 0)`, plus the Baumgarte term of the reported errors.
+    (Whether `W` satisfies the kinematic hypotheses `JacHyp` of sections 4, 5 is the subject of C13;
+    the stale `c[i]` of finding D1 enters here through `W`.) -/
+theorem constrained_system_variables_rows (ops : List (L09.Op α))
+    (hn : ∀ c ∈ (run ops).cs, NoFixed c)
+    (m : ModelS α) (w : WS α) (st : QS α) (qd : VecN α) (update : Bool)
+    (fext : Option (Nat → SV α)) :
+    ∀ c ∈ (run ops).cs, ∀ r, hasRow c r →
+      (∀ col, col < m.qdotSize →
+        (calcConstrainedSystemVariables m w st qd (run ops) update fext).2.G r col
+          = (c.jacobian m (csvWS m w st qd update fext) st zeroMat false).2 r col) ∧
+      (calcConstrainedSystemVariables m w st qd (run ops) update fext).2.err r
+        = (c.positionError m (csvWS m w st qd update fext) st (fun _ => 0) false).2 r ∧
+      (calcConstrainedSystemVariables m w st qd (run ops) update fext).2.errd r
+        = (c.velocityError m (csvWS m w st qd update fext) st qd
+            (calcConstrainedSystemVariables m w st qd (run ops) update fext).2.G (fun _ => 0)
+            false).2 r ∧
+      (calcConstrainedSystemVariables m w st qd (run ops) update fext).2.gamma r
+        = (c.gamma m (updateKinematicsCustom m (csvWS m w st qd update fext) none none
+              (some zeroVec)) st qd (fun _ => 0)).2 r
+          + (if c.baumgarte = true then
+              -(2 * c.bgA * (calcConstrainedSystemVariables m w st qd (run ops) update fext).2.errd r)
+                - c.bgB * c.bgB
+                  * (calcConstrainedSystemVariables m w st qd (run ops) update fext).2.err r
+             else 0) :=
+  csv_rows (run ops) (inv_foldl ops _ inv_empty) (contig_foldl ops _ inv_empty contig_empty) hn
+    m w st qd update fext
+example := constrained_system_variables_rows L09.Ex.ops L09.Ex.ops_noFixed L09.Ex.m
+  L09.Ex.w0 L09.Ex.st L09.Ex.qd true none
+
+end
+
+/-! ### 7. the defect classes: machine-checked counterexamples (`L09.Ex`, over `Rat`) -/
+
+/-- **D5a**.  One revoluteZ body (angle with cos, sin = 4/5, 3/5; `q̇ = 1`).  Loop constraint base →
+    body 1, both frames at the body point (1,0,0) = base point (4/5, 3/5, 0), coinciding and aligned;
+    only the rotation about the common z axis is locked.  The reported position error is 0, it is
+    the value of `φ`, `φ̇ = 1` — but `G q̇ = 9/5`; `−φ̈|_{q̈=0} = 0` — but `γ = −3/5`.  With both frames at
+    the base origin instead (`Ex.cA0`) `G q̇ = 1 = φ̇`. -/
+theorem D5a_counterexample :
+    L09.Ex.cA.ctype = .loop ∧ L09.Ex.cA.row = 0 ∧ L09.Ex.cA.T = [⟨⟨0, 0, 1⟩, ⟨0, 0, 0⟩⟩] ∧
+    frameOf L09.Ex.wA L09.Ex.cA.bodyS L09.Ex.cA.XS = frameOf L09.Ex.wA L09.Ex.cA.bodyP L09.Ex.cA.XP ∧
+    (frameOf L09.Ex.wA L09.Ex.cA.bodyP L09.Ex.cA.XP).r = ⟨4/5, 3/5, 0⟩ ∧
+    (L09.Ex.cA.positionError L09.Ex.mA L09.Ex.wA L09.Ex.stA (fun _ => 0) false).2 0 = 0 ∧
+    L09.Ex.phiOf L09.Ex.cA L09.Ex.mA L09.Ex.stA L09.Ex.qdA zeroVec 0 = ⟨0, 1, 0⟩ ∧
+    rowDot (L09.Ex.cA.jacobian L09.Ex.mA L09.Ex.wA L09.Ex.stA zeroMat false).2 L09.Ex.mA.qdotSize 0
+      L09.Ex.qdA = 9/5 ∧
+    (L09.Ex.cA.gamma L09.Ex.mA L09.Ex.wA L09.Ex.stA L09.Ex.qdA (fun _ => 0)).2 0 = -3/5 ∧
+    L09.Ex.phiOf L09.Ex.cA0 L09.Ex.mA L09.Ex.stA L09.Ex.qdA zeroVec 0 = ⟨0, 1, 0⟩ ∧
+    rowDot (L09.Ex.cA0.jacobian L09.Ex.mA L09.Ex.wA L09.Ex.stA zeroMat false).2 L09.Ex.mA.qdotSize 0
+      L09.Ex.qdA = 1 ∧
+    (L09.Ex.cA0.gamma L09.Ex.mA L09.Ex.wA L09.Ex.stA L09.Ex.qdA (fun _ => 0)).2 0 = 0 := by
+  decide +kernel
+
+/-- **D5b**.  Body 1 turns about z (`q̇₁ = 1`), body 2 slides along the x axis of body 1 (`q₂ = 2`,
+    `q̇₂ = 3`).  Loop constraint body 1 → body 2, frames at the body origins, only the y translation
+    of the (rotating) predecessor frame locked: `φ ≡ 0` along every motion, so `φ̇ = φ̈ = 0` — but
+    `G q̇ = 2` (`= q₂ q̇₁`) and `γ = −3`. -/
+theorem D5b_counterexample :
+    L09.Ex.cB.ctype = .loop ∧ L09.Ex.cB.row = 0 ∧ L09.Ex.cB.T = [⟨⟨0, 0, 0⟩, ⟨0, 1, 0⟩⟩] ∧
+    (L09.Ex.cB.positionError L09.Ex.mB L09.Ex.wB L09.Ex.stB (fun _ => 0) false).2 0 = 0 ∧
+    L09.Ex.phiOf L09.Ex.cB L09.Ex.mB L09.Ex.stB L09.Ex.qdB zeroVec 0 = ⟨0, 0, 0⟩ ∧
+    rowDot (L09.Ex.cB.jacobian L09.Ex.mB L09.Ex.wB L09.Ex.stB zeroMat false).2 L09.Ex.mB.qdotSize 0
+      L09.Ex.qdB = 2 ∧
+    (L09.Ex.cB.gamma L09.Ex.mB L09.Ex.wB L09.Ex.stB L09.Ex.qdB (fun _ => 0)).2 0 = -3 := by
+  decide +kernel
+
+/-- **sine scaling** (observation).  One spherical body; predecessor frame on the base at the base
+    origin, turned about the z axis of the successor frame (cos, sin = 4/5, 3/5) — as in a hinge
+    loop joint that has moved; the x rotation is locked.  The reported error is 0 (`axial` of a
+    rotation about z has no x component) and `φ̇ = 3/2`, `−φ̈|_{q̈=0} = 5/2` — but `G q̇ = 0`, `γ = 0`. -/
+theorem sine_scaling_counterexample :
+    L09.Ex.cS.ctype = .loop ∧ L09.Ex.cS.T = [⟨⟨1, 0, 0⟩, ⟨0, 0, 0⟩⟩] ∧
+    (frameOf L09.Ex.wS L09.Ex.cS.bodyP L09.Ex.cS.XP).r = V3.zero ∧
+    (L09.Ex.cS.positionError L09.Ex.mS L09.Ex.wS L09.Ex.stS (fun _ => 0) false).2 0 = 0 ∧
+    L09.Ex.phiOf L09.Ex.cS L09.Ex.mS L09.Ex.stS L09.Ex.qdS zeroVec 0 = ⟨0, 3/2, -5/2⟩ ∧
+    rowDot (L09.Ex.cS.jacobian L09.Ex.mS L09.Ex.wS L09.Ex.stS zeroMat false).2 L09.Ex.mS.qdotSize 0
+      L09.Ex.qdS = 0 ∧
+    (L09.Ex.cS.gamma L09.Ex.mS L09.Ex.wS L09.Ex.stS L09.Ex.qdS (fun _ => 0)).2 0 = 0 := by
+  decide +kernel
+
 end Rbdl.C09
